@@ -404,6 +404,22 @@ static int _GD_Move(DIRFILE *D, gd_entry_t *E, int new_fragment, unsigned flags)
   for (i = 0; i < E->e->n_meta; ++i)
     E->e->p.meta_entry[i]->fragment_index = new_fragment;
 
+  /* Update /REFERENCE directives naming this field */
+  if (new_code)
+    for (i = 0; i < D->n_fragment; ++i)
+      if (D->fragment[i].ref_name &&
+          strcmp(D->fragment[i].ref_name, E->field) == 0)
+      {
+        /* a fragment can only nominate a field that carries its affixes */
+        char *ref = _GD_CheckCodeAffixes(D, new_code, i, 0) ? NULL :
+          _GD_Strdup(D, new_code);
+        if (!D->error) {
+          free(D->fragment[i].ref_name);
+          D->fragment[i].ref_name = ref;
+          D->fragment[i].modified = 1;
+        }
+      }
+
   if (rdat)
     _GD_PerformRename(D, rdat);
 
